@@ -20,6 +20,7 @@ type toolInput struct {
 	Flags   []string // flags other than -o / file argument
 	Class   string   // repo, gen, genlr, mut, bytes
 	Rules   []string // rule names if known (for -alternate-entrypoints)
+	Rebuild bool     // library-style use: parse once, build twice from the same grammar value
 }
 
 // repoGrammars lists every .peg file of the scratch copy, sorted.
@@ -97,14 +98,14 @@ func genToolGrammar(r *rng, lr bool) (toolInput, *gen.Grammar) {
 		Actions: r.chance(2, 3), Preds: r.chance(1, 2), States: r.chance(1, 3), Lookahead: r.chance(1, 2),
 		Labels: r.chance(1, 2), Throws: r.chance(1, 4), Fold: r.chance(1, 2), Unicode: r.chance(1, 2),
 		AnyMatcher: r.chance(1, 2), Display: r.chance(1, 3), NullableLoops: r.chance(1, 4),
-		Unused: r.chance(1, 3), Undefined: r.chance(1, 10), SharedLeaf: r.chance(1, 2), LeftRec: lr,
+		Unused: r.chance(1, 3), Undefined: r.chance(1, 10), SharedLeaf: r.chance(1, 2), LeftRec: lr, Wide: r.chance(1, 2),
 	}
 	g := gen.Generate(r2{r}, cfg)
 	if g == nil {
 		cfg.MaxDepth = 1
 		g = gen.Generate(r2{r}, cfg)
 	}
-	po := gen.PrintOptions{Semi: r.chance(1, 6)}
+	po := gen.PrintOptions{Semi: r.chance(1, 6), JoinLines: r.chance(1, 6) || (lr && r.chance(1, 3))}
 	if r.chance(1, 4) {
 		po.Arrow = []string{"<-", "=", "←", "⟵"}
 	}
@@ -225,10 +226,16 @@ func randomBytes(r *rng) []byte {
 type delivery struct {
 	viaFile bool
 	outFile bool
+	stale   bool // the -o path already holds a longer file from an earlier run
 }
+
+var staleOutput = []byte(strings.Repeat("}}}} stale content of an earlier, longer output {{{{\n", 12000))
 
 func makeCase(id string, in toolInput, d delivery, f simos.Faults, mode int, mseed uint64, repeat int) tooldriver.Case {
 	c := tooldriver.Case{ID: id, Faults: f, MapMode: mode, MapSeed: mseed, Repeat: repeat}
+	if in.Rebuild {
+		c.Mode = "rebuild"
+	}
 	c.Args = append(c.Args, in.Flags...)
 	if d.outFile {
 		c.Args = append(c.Args, "-o", "out/parser.go")
@@ -238,6 +245,12 @@ func makeCase(id string, in toolInput, d delivery, f simos.Faults, mode int, mse
 		c.Args = append(c.Args, "grammar.peg")
 	} else {
 		c.Stdin = in.Grammar
+	}
+	if d.outFile && d.stale {
+		if c.Files == nil {
+			c.Files = map[string][]byte{}
+		}
+		c.Files["out/parser.go"] = staleOutput
 	}
 	return c
 }
@@ -255,10 +268,10 @@ func genFreeRefGrammar(r *rng) toolInput {
 		Actions: r.chance(1, 3), Preds: r.chance(1, 4), States: r.chance(1, 5), Lookahead: r.chance(1, 3),
 		Labels: r.chance(1, 4), Throws: r.chance(1, 8), Fold: r.chance(1, 3), Unicode: r.chance(1, 4),
 		AnyMatcher: r.chance(1, 3), NullableLoops: true, FreeRefs: true, CaseNames: r.chance(1, 3),
-		Unused: r.chance(1, 4), SharedLeaf: r.chance(1, 4),
+		Unused: r.chance(1, 4), SharedLeaf: r.chance(1, 2), Wide: r.chance(1, 3),
 	}
 	g := gen.Generate(r2{r}, cfg)
-	po := gen.PrintOptions{}
+	po := gen.PrintOptions{JoinLines: r.chance(1, 4)}
 	if r.chance(1, 2) {
 		po.Header = "{\npackage gen\n}"
 	}
